@@ -19,7 +19,7 @@ Theorem C09_stops_at_first_failure :
 Proof. exact Drive.drive_stops_at_first_error. Qed.
 
 Theorem C09_accepts_consistent_chain :
-  forall (c : coin) (d : datadir) (o : opts) (ci : chain_index), d_files d <> [] -> new_index (d_index d) (o_range o) = Ok ci -> let s := o_start (o_range o) in s <= ci_max ci + 1 -> (forall h : N, s <= h <= ci_max ci -> exists b : eblock, get_block c d (o_verify o) ci h = Some (inl b)) -> exists r : result, run_case c d o = Run r /\ r_ci r = ci /\ r_fail r = None /\ r_cur r = ci_max ci + 1 /\ map fst (r_delivered r) = Drive.heights s (N.to_nat (ci_max ci + 1 - s)) /\ (forall (h : N) (b : eblock), In (h, b) (r_delivered r) -> get_block c d (o_verify o) ci h = Some (inl b)).
+  forall (c : coin) (d : datadir) (o : opts) (ci : chain_index), range_ok (o_range o) = true -> d_files d <> [] -> new_index (d_index d) (o_range o) = Ok ci -> let s := o_start (o_range o) in s <= ci_max ci + 1 -> (forall h : N, s <= h <= ci_max ci -> exists b : eblock, get_block c d (o_verify o) ci h = Some (inl b)) -> exists r : result, run_case c d o = Run r /\ r_ci r = ci /\ r_fail r = None /\ r_cur r = ci_max ci + 1 /\ map fst (r_delivered r) = Drive.heights s (N.to_nat (ci_max ci + 1 - s)) /\ (forall (h : N) (b : eblock), In (h, b) (r_delivered r) -> get_block c d (o_verify o) ci h = Some (inl b)).
 Proof. exact run_delivers_range. Qed.
 
 Theorem C09_btc_genesis_hash :
